@@ -334,6 +334,11 @@ def r08_3(ctx):
         elif p.end == 'return':
             rv = p.ret()
             ok = rv[0] == 'un' and rv[1] == 'Not' and (head(C)(rv[2]))
+            if not ok and rv[0] == 'un' and rv[1] == 'Not' and is_call(rv[2], '::fold') and len(rv[2][2]) == 3 and head(C)(rv[2][2][1]):
+                # `!buf.iter().fold(crc, |crc, &b| ..)`: the tail loop as a fold seeded with the running crc; its step is not followed
+                ok = True
+                seen_tail = True
+                ctx.undecided(R, 'tail-step', 'the byte-wise tail is a fold whose step the rule does not follow', fn=f)
             ctx.check(R, ok, 'post-inversion', 'the result must be the complement of the running crc: %s' % fmt(rv)[:60], fn=f)
     # pre-inversion
     init = None
